@@ -17,6 +17,9 @@ import (
 // ---- C17: numeric filters compute exact arithmetic and report impossible operations ----
 
 // An operand of the numeric universe, in JSON-able form.
+type c17NamedInt int64
+type c17NamedFloat float64
+
 type numOp struct {
 	Kind string  `json:"kind"` // int | uint (bound as a uint64) | float | str | nil
 	I    int64   `json:"i,omitempty"`
@@ -31,6 +34,10 @@ func (o numOp) goValue() any {
 		return int(o.I)
 	case "uint":
 		return o.U
+	case "nint":
+		return c17NamedInt(o.I)
+	case "nfloat":
+		return c17NamedFloat(o.F)
 	case "float":
 		return o.F
 	case "str":
@@ -45,6 +52,10 @@ func (o numOp) String() string {
 		return fmt.Sprint(o.I)
 	case "uint":
 		return fmt.Sprint(o.U) + "u"
+	case "nint":
+		return fmt.Sprint(o.I) + " (named int type)"
+	case "nfloat":
+		return strconv.FormatFloat(o.F, 'g', -1, 64) + " (named float type)"
 	case "float":
 		return strconv.FormatFloat(o.F, 'g', -1, 64) + "f"
 	case "str":
@@ -60,6 +71,10 @@ func (o numOp) rat(receiver bool) (r *big.Rat, ok, unspecified bool) {
 		return new(big.Rat).SetInt64(o.I), true, false
 	case "uint":
 		return new(big.Rat).SetInt(new(big.Int).SetUint64(o.U)), true, false
+	case "nint":
+		return new(big.Rat).SetInt64(o.I), true, false
+	case "nfloat":
+		return new(big.Rat).SetFloat64(o.F), true, false
 	case "float":
 		return new(big.Rat).SetFloat64(o.F), true, false
 	case "str":
@@ -176,7 +191,7 @@ func c17Model(filter string, a *big.Rat, bo *numOp) c17Exp {
 		if !ok {
 			return c17Exp{err: true}
 		}
-		b, bInt = r, bo.Kind == "int" || bo.Kind == "uint"
+		b, bInt = r, bo.Kind == "int" || bo.Kind == "uint" || bo.Kind == "nint"
 	}
 	switch filter {
 	case "plus":
@@ -369,6 +384,8 @@ func c17Universe() []numOp {
 	for _, i := range []uint64{0, 3, 1 << 63, math.MaxUint64} {
 		u = append(u, numOp{Kind: "uint", U: i})
 	}
+	// numbers of named Go types (a time.Duration, a money type)
+	u = append(u, numOp{Kind: "nint", I: 4}, numOp{Kind: "nint", I: -3}, numOp{Kind: "nint", I: 0}, numOp{Kind: "nfloat", F: 2.5}, numOp{Kind: "nfloat", F: 0})
 	for k := -20; k <= 20; k++ {
 		u = append(u, numOp{Kind: "float", F: float64(k) / 4})
 	}
